@@ -112,6 +112,8 @@ ST_LoopBackEdge(s) ==
         /\ InnerHeader(s.H, s.H[x].be[1]) = InnerHeader(s.H, r)
         /\ InnerHeader(s.H, r) # "?"
         /\ s.H[x].be[1] \in HeaderChain(s.H, r)       \* ... and names that header (or the region it is the header of)
+        /\ s.H[x].be[1] \in SeqSet(s.H[x].jt)         \* the back edge IS an edge of the latch: the loop loops
+        /\ s.H[s.H[x].be[1]].up \in Enclosing(s.H, s.root, s.H[x].up)   \* ... to something visible from where the latch stands
 \* no back edge outside loop regions, and none on a region block itself
 ST_NoStrayBackEdge(s) ==
   /\ \A r \in Regions(s.H) : s.H[r].be = <<>>
